@@ -323,6 +323,56 @@ example : ∃ st, decodeGeometry {} { rest :=
 example : (expected samplePC sampleOpts).atts.map (·.values) =
     [[5, 6, 7, 8, 1, 2, 3, 4, 5, 6, 7, 8], [255, 255, 5, 0, 0, 1]] := by decide +kernel
 
+/-- non-vacuity of `seq_attr_roundtrip_generic`: the unquantized float attribute of `samplePC` -/
+example : ∃ e, encodeAttribute sampleChoices sampleOpts 3 0
+      { attType := 4, dataType := 9, numComponents := 1, normalized := false, uniqueId := 7,
+        numValues := 2, map := some [1, 0, 1], values := [1, 2, 3, 4, 5, 6, 7, 8] } = some e ∧
+    e.encType = 0 ∧ e.valueBytes = [5, 6, 7, 8, 1, 2, 3, 4, 5, 6, 7, 8] := by
+  have h : (encodeAttribute sampleChoices sampleOpts 3 0
+      { attType := 4, dataType := 9, numComponents := 1, normalized := false, uniqueId := 7,
+        numValues := 2, map := some [1, 0, 1], values := [1, 2, 3, 4, 5, 6, 7, 8] }).isSome = true := by
+    decide +kernel
+  obtain ⟨e, he⟩ := Option.isSome_iff_exists.1 h
+  obtain ⟨h1, h2, _, _, _⟩ := seq_attr_roundtrip_generic sampleChoices sampleOpts 3 0 _ e (by decide)
+    (attOK_of_decide _ _ _ (by decide) (by decide) (by decide) (by decide) (by decide) (by decide)
+      (by decide) rfl (by decide)) (by decide) he []
+  exact ⟨e, he, h1, by rw [h2]; decide +kernel⟩
+
+/-- non-vacuity of `seq_attr_roundtrip_integer`: the int16 attribute of `samplePC` -/
+example : ∃ e, encodeAttribute sampleChoices sampleOpts 3 1
+      { attType := 0, dataType := 3, numComponents := 1, normalized := false, uniqueId := 0,
+        numValues := 3, map := none, values := [255, 255, 5, 0, 0, 1] } = some e ∧
+    e.encType = 1 ∧ (e.portable.map (intToLE 2)).flatten = [255, 255, 5, 0, 0, 1] := by
+  have h : (encodeAttribute sampleChoices sampleOpts 3 1
+      { attType := 0, dataType := 3, numComponents := 1, normalized := false, uniqueId := 0,
+        numValues := 3, map := none, values := [255, 255, 5, 0, 0, 1] }).isSome = true := by
+    decide +kernel
+  obtain ⟨e, he⟩ := Option.isSome_iff_exists.1 h
+  obtain ⟨h1, _, h3, _⟩ := seq_attr_roundtrip_integer sampleChoices sampleOpts 3 1 _ e (by decide)
+    (attOK_of_decide _ _ _ (by decide) (by decide) (by decide) (by decide) (by decide) (by decide)
+      (by decide) rfl (by decide)) (by decide) he 515 (by decide)
+  exact ⟨e, he, h1, by rw [show dataTypeLength 3 = 2 from by decide] at h3; rw [h3]; decide +kernel⟩
+
+/- `seq_attr_roundtrip_quantization` / `seq_attr_roundtrip_normal`: their hypotheses mention the
+   executable `Float32` quantizer, which the Lean kernel cannot evaluate; that they are satisfiable is
+   witnessed by the driver (`seqenc` cases tagged `seqenc:ok:dom-ok` with quantized positions /
+   normals: the op evaluates the hypotheses `domainOf` and the conclusion `rt-ok` on each of them).
+   Their integer core is `seq_values_roundtrip`; a concrete instance of its octahedral branch: -/
+example : ∃ s', decodeIntegerValues 3 2 2
+      { rest := [0, 3, 0, 1, 2, 0, 6, 4, 7, 0, 0, 0, 3, 0, 0, 0] ++ [5], version := 514 }
+      = (some [6, 4, 3, 3], s') ∧ s'.rest = [5] :=
+  seq_values_roundtrip sampleChoices 7 false 0 3 2 2 true (some ⟨3, 7, 6, 3⟩) 1 [6, 4, 3, 3] _ 514
+    (by decide) (by decide) (by decide) rfl (by decide) (by decide) (by decide)
+    (fun _ => ⟨rfl, 3, ⟨3, 7, 6, 3⟩, by decide, rfl, by
+      intro e he
+      have : e = [6, 4] ∨ e = [3, 3] := by
+        have hm : entriesOf 2 ([6, 4, 3, 3] : List Int).length [6, 4, 3, 3] = [[6, 4], [3, 3]] := by decide
+        rw [hm] at he; simpa using he
+      rcases this with rfl | rfl
+      · exact ⟨6, 4, rfl, by decide, by decide⟩
+      · exact ⟨3, 3, rfl, by decide, by decide⟩⟩)
+    (by decide +kernel) _ [5] rfl rfl
+
 /-- a mesh: 4 points, 2 faces, compressed connectivity, one int32 attribute, symbol coding -/
 def sampleMesh : Geometry :=
   { isMesh := true, numPoints := 4, faces := [(0, 1, 2), (2, 1, 3)],
